@@ -277,16 +277,19 @@ func (cli *Client) EnrollContext(c net.Conn, ctx any) (Conn, error) {
 	gc.SetContext(ctx)
 	gc.SetSafeContext(ctx)
 
-	connOpened := make(chan struct{})
-	ccb := &connWithCallback{c: gc, cb: func() {
-		close(connOpened)
+	connOpened := make(chan error, 1)
+	ccb := &connWithCallback{c: gc, cb: func(err error) {
+		connOpened <- err
 	}}
 	err = el.poller.Trigger(queue.HighPriority, el.register, ccb)
 	if err != nil {
 		gc.Close() //nolint:errcheck
 		return nil, err
 	}
-	<-connOpened
+	if err = <-connOpened; err != nil {
+		// The registration failed, there is no usable connection to hand out.
+		return nil, err
+	}
 
 	return gc, nil
 }
